@@ -357,7 +357,7 @@ func (q *c15Seq) wfStep(si int, pending map[int]*c15Text) bool {
 	}
 	if resyncEngines {
 		q.d.EnableFilters(false)
-		rep.Event("engines_rebuilt_by_monitor_after_violation")
+		rep.Event("engines_rebuilt_by_monitor_to_resynchronise")
 	}
 	for range q.env.script.drainUnscripted() {
 		rep.Event("unscripted_requests")
